@@ -45,6 +45,73 @@ theorem callViews_eq (r : Request) (cs : List Callable) (pme : Bool) :
     | some v => simp
     | none => simp [ih]
 
+/-! ### evaluation trace -/
+
+/-- the asked views of a list: everything before the first that holds, and that one -/
+def askedSpec (r : Request) (vs : List DView) : List Nat :=
+  (vs.takeWhile fun v => !v.holds r).map (·.tag) ++ ((vs.find? (·.holds r)).map (·.tag)).toList
+
+theorem askedFirst_eq (r : Request) (vs : List DView) : askedFirst r vs = askedSpec r vs := by
+  induction vs with
+  | nil => rfl
+  | cons v vs ih =>
+    simp only [askedFirst, askedSpec, List.takeWhile_cons, List.find?_cons]
+    by_cases h : v.holds r = true
+    · simp [h]
+    · have h' : v.holds r = false := by simpa using h
+      simp [h', ih, askedSpec]
+
+theorem askedFirst_all_false (r : Request) (a : List DView) (h : ∀ v ∈ a, v.holds r = false) :
+    askedFirst r a = a.map (·.tag) := by
+  induction a with
+  | nil => rfl
+  | cons v a ih =>
+    have hv : v.holds r = false := h v List.mem_cons_self
+    simp [askedFirst, hv, ih (fun u hu => h u (List.mem_cons_of_mem _ hu))]
+
+theorem askedFirst_append (r : Request) (a b : List DView) :
+    askedFirst r (a ++ b) = if a.any (·.holds r) then askedFirst r a else a.map (·.tag) ++ askedFirst r b := by
+  induction a with
+  | nil => simp
+  | cons v a ih =>
+    by_cases h : v.holds r = true
+    · simp [askedFirst, h]
+    · have h' : v.holds r = false := by simpa using h
+      simp only [List.cons_append, askedFirst, h', Bool.false_eq_true, if_false, ih, List.any_cons, Bool.false_or,
+        List.map_cons]
+      split <;> simp
+
+theorem Callable.asked_eq (r : Request) (c : Callable) : c.asked r = askedFirst r (c.views r) := by
+  cases c with
+  | single v => simp [Callable.asked, Callable.views, askedFirst]
+  | multi mv => rfl
+
+theorem askedViews_eq (r : Request) (cs : List Callable) :
+    askedViews r cs = askedFirst r (cs.flatMap (Callable.views r)) := by
+  induction cs with
+  | nil => rfl
+  | cons c cs ih =>
+    simp only [askedViews, List.flatMap_cons, askedFirst_append, Callable.asked_eq, Callable.call_eq, callFirst_eq_find,
+      Option.isSome_map]
+    by_cases h : (Callable.views r c).any (·.holds r) = true
+    · have : ((Callable.views r c).find? (·.holds r)).isSome = true := by
+        rw [List.find?_isSome]; simpa using h
+      simp [h, this]
+    · have hall : ∀ v ∈ Callable.views r c, v.holds r = false := by
+        intro v hv
+        cases hc : v.holds r with
+        | false => rfl
+        | true => exact absurd (List.any_eq_true.mpr ⟨v, hv, hc⟩) h
+      have hnone : ((Callable.views r c).find? (·.holds r)).isSome = false := by
+        cases hf : (Callable.views r c).find? (·.holds r) with
+        | none => rfl
+        | some v =>
+          have := List.find?_some hf
+          have hm := List.mem_of_find?_eq_some hf
+          simp [hall v hm] at this
+      have h' : (Callable.views r c).any (·.holds r) = false := by simpa using h
+      simp [h', hnone, ih, askedFirst_all_false r _ hall]
+
 /-! ### the registry is slot-wise the fold of the slot's registrations -/
 
 theorem foldl_registerView_apply (regs : List ViewReg) (reg0 : Registry) (k : SlotKey) :
